@@ -37,6 +37,42 @@ chk(
     "the VFS feeding stat/listdir. Inode-number symmetry is assumed for the enumerated part only.",
 )
 
+chk(
+    "C10", "wdverif/props/c10.py",
+    "runtime reference-diff oracle per poll of the real PollingEmitter over a VFS + fault injection at every stat/listdir call position + mid-walk mutation",
+    "Fault enumeration + exploration: every poll of the real PollingEmitter (direct and through PollingObserverVFS with its real "
+    "emitter thread and dispatcher) is compared with a reference diff keyed by (ino,dev) computed from the VFS states; a failure "
+    "(ENOENT/ENOTDIR/EACCES) is injected at every stat/listdir call position of each tree's walk; the tree is mutated at chosen call "
+    "positions in mid-walk; root removal is judged for exactly one DirDeletedEvent and a stopped emitter.",
+    "Trusted: the VFS (POSIX-like lookup semantics), the reference diff in c10.py. Direct mode calls on_thread_start()/queue_events(0) "
+    "from the harness thread; thread mode installs each scripted state atomically at the start of a walk.",
+    category="fault_enumeration",
+)
+
+chk(
+    "C16", "wdverif/props/c16.py",
+    "sequential reference model over all short put/get sequences + linearizability checker over recorded concurrent histories (noise and directed line holds via sys.monitoring) + pairwise equality/hash law",
+    "Exploration: (a) every put/get sequence up to length 6 (thorough 7) over 5 values against a sequential model, each put a fresh "
+    "object so drops are observed by identity; (b) recorded histories of <=3 producers + 1 consumer on real threads checked for "
+    "linearizability (Wing-Gong + memo) against 'a put may be dropped only if equal to the last accepted, still queued put', driven by "
+    "sys.monitoring noise and by holding a thread at every executed line of SkipRepeatsQueue.put/_put/_get; (c) equality/hash law over "
+    "all pairs of 156 event objects.",
+    "Not dropping a duplicate is never a violation (statement forbids only loss). Trusted: the linearizability checker and the "
+    "reference equality. Preemption only at line granularity; coordinated multi-preemption schedules are sampled, not enumerated.",
+)
+
+chk(
+    "C17", "wdverif/props/c17.py",
+    "offline trace checker over (op, result, virtual time) logs of the real DelayedQueue on a virtual clock with exact quiescence; directed line holds via sys.monitoring",
+    "Exploration: all driver scripts up to length 4 (thorough 5) over {put delayed/undelayed, get, remove hit/miss, advance by "
+    "{d-e,d,d+e,2d}, close} plus random scripts to 30 ops, executed against the real DelayedQueue whose time/threading module "
+    "globals are a virtual clock and a waiter-counting Condition; checker: FIFO, exactly-once over get+remove, never early, "
+    "undelayed head not delayed, close unblocks a parked get, later get returns the end marker. Holds park consumer/put/remove/"
+    "close at every executed line while the other operations run.",
+    "Trusted: virtual clock + counting Condition (harness), offline checker. Liveness is judged logically (consumer parked in the "
+    "condition with elements outstanding / after close), never by wall clock; a rig that cannot reach quiescence is inconclusive.",
+)
+
 _PENDING = "check not built yet in this round of work (planned in DESIGN.md section 3); not claimed until its monitor exists"
 _built = {c["id"] for c in CHECKS}
 for n in range(1, 21):
